@@ -23,6 +23,7 @@ CLAUSES = {
     "63": "C06: two outstanding packets carry the same packet id, or id 0",
     "64": "C06: the peer acknowledged correctly and in order but the connection was closed",
     "65": "C06: a mismatching acknowledgement completed a send successfully",
+    "66": "C06: a send was refused with PacketIdInUse although no outstanding packet carries that id",
     "71": "C07: the connection has ended and every task was polled again, but a send / readiness future is still "
           "pending (it must resolve with Disconnected)",
     "81": "C08: a packet was written while a streamed PUBLISH payload was still owed (interleaved into the payload)",
@@ -69,6 +70,8 @@ def track(ver, case, obs, want):
     prev_cap, prev_wrb, prev_open = cap0, 0, 1
     prev_streaming = 0
     prev_tasks = {}
+    start_id = {}     # task -> explicit packet id of the op that created it (0 = automatic)
+    out_at_create = {}  # task created without the first poll (op 16) -> ids outstanding at that moment
     closed_expected = False
     good_peer = True
     peer_early_comp = False
@@ -84,8 +87,13 @@ def track(ver, case, obs, want):
             return "0,1,%d" % i
         code = op[0] if op else 0
         t = op[1] if len(op) > 1 else None
-        if code == 1 and t is not None and t not in kind_of and len(op) > 2:
+        if code in (1, 16) and t is not None and t not in kind_of and len(op) > 2 and t in tasks and t not in prev_tasks:
+            # the op that created task t (a start / create with a task number in use is a no-op)
             kind_of[t] = op[2]
+            start_id[t] = op[3] % 65536 if len(op) > 3 else 0
+            if code == 16:
+                # kinds 1, 2, 7, 8 check the id in the call; the verdict shows at the first poll
+                out_at_create[t] = set(e[0] for e in out)
         # --- acknowledgements from the peer (processed before anything the op writes)
         acks = []
         if code == 4 and len(op) >= 3:
@@ -156,7 +164,7 @@ def track(ver, case, obs, want):
             was = prev_tasks.get(u)
             if st == 2 and was != 2:
                 k = kind_of.get(u)
-                if 6 in want and k in (1, 3, 4, 7):
+                if 6 in want and k in (1, 3, 4, 7, 8):
                     if phase.get(u) != "acked":
                         return "0,61,%d" % i
                 if 6 in want and k == 2:
@@ -164,8 +172,14 @@ def track(ver, case, obs, want):
                         return "0,61,%d" % i
                     if phase.get(u) == "receipt_ready":
                         phase[u] = "receipt"
-                if mismatch_here and 6 in want and k in (1, 2, 3, 4, 7):
+                if mismatch_here and 6 in want and k in (1, 2, 3, 4, 7, 8):
                     return "0,65,%d" % i
+        if 6 in want and code in (1, 2) and t is not None and tasks.get(t) == 4 and prev_tasks.get(t) in (None, 1) \
+                and start_id.get(t) and prev_open and is_open and not closed_expected and good_peer:
+            # refused with PacketIdInUse in the op that started / polled it: some outstanding packet (the peer's
+            # view) must carry the explicit id -- now, or when the future was created (op 16)
+            if not any(e[0] == start_id[t] for e in out) and start_id[t] not in out_at_create.get(t, ()):
+                return "0,66,%d" % i
         if 6 in want:
             if closed_expected and is_open and code not in ():
                 # the connection must be closed once the mismatching ack has been processed
